@@ -1679,6 +1679,20 @@ class ReaderExtractor:
     def _stmt(self, s: ast.stmt, st) -> None:
         fi: FuncInfo = st["fi"]
         res: ReaderResult = st["res"]
+        if isinstance(s, ast.With) and all(isinstance(it.optional_vars, ast.Name) and isinstance(it.context_expr, ast.Call) and self._read_call(it.context_expr, st) is not None
+                                           for it in s.items):
+            rd = self.m.classes.get(f"{ASN1}.ASN1Reader")
+            ent = rd.methods.get("__enter__") if rd is not None else None
+            rets = [r_ for r_ in ast.walk(ent.node) if isinstance(r_, ast.Return)] if ent is not None and not isinstance(ent.node, ast.Lambda) else []
+            if ent is not None and len(rets) == 1 and isinstance(rets[0].value, ast.Name) and rets[0].value.id == "self":
+                # `with R.read_sequence(...) as sub:` with a reader whose __enter__ hands back the reader itself: `sub = R.read_sequence(...)`
+                # followed by the block (what __exit__ does when the block is left is judged by the rules on the reader class)
+                for it in s.items:
+                    asg = ast.copy_location(ast.Assign(targets=[ast.Name(id=it.optional_vars.id, ctx=ast.Store())], value=it.context_expr), s)
+                    ast.fix_missing_locations(asg)
+                    self._stmt(asg, st)
+                self._block(s.body, st)
+                return
         if isinstance(s, ast.AugAssign) and isinstance(s.op, ast.Add) and isinstance(s.target, ast.Name) and isinstance(s.value, ast.Call):
             s = ast.copy_location(ast.Expr(value=ast.Call(func=ast.Attribute(value=s.target, attr="extend", ctx=ast.Load()), args=[s.value], keywords=[])), s)
             ast.fix_missing_locations(s)
@@ -1876,8 +1890,14 @@ class ReaderExtractor:
             return
         if isinstance(s, (ast.Raise, ast.Pass, ast.Continue, ast.Break)):
             return
+        if isinstance(s, ast.Assert) and not any(isinstance(x, ast.Call) for x in ast.walk(s.test)):
+            return              # what it raises is the may-raise analysis' business; it reads nothing
         if isinstance(s, ast.Try):
             self._block(s.body, st)
+            return
+        if isinstance(s, ast.AugAssign) and not any(isinstance(x, ast.Name) and (x.id in st["readers"] or x.id in st["headers"]) for x in ast.walk(s)) and \
+                not any(isinstance(x, ast.Call) for x in ast.walk(s.value)):
+            # a counter stepped next to the reads (a nesting level, a running total): no part of the grammar
             return
         raise AnalysisError(f"{fi.qualname}:{s.lineno}: unsupported statement {type(s).__name__} in a reader")
 
